@@ -4,7 +4,7 @@ from .. import vlib
 
 TRUSTED = [
     "Lean 4.33 kernel; axioms per theorem under coverage.axioms (subset of propext, Classical.choice, Quot.sound)",
-    "translate/eclio.py (block/column constants from EclIOdata.hpp), translate/esmryseek.py (the seek expressions of ESmry::loadData(vectList)), translate/extesmry.py (the vector position arithmetic of ExtESmry::load_esmry and the array order of ExtSmryOutput::write)",
+    "translate/eclio.py (block/column constants from EclIOdata.hpp), translate/esmryseek.py (the seek expressions of ESmry::loadData(vectList) and the report-step counter of the restart-chain scan in the ESmry constructor), translate/extesmry.py (the vector position arithmetic of ExtESmry::load_esmry and the array order of ExtSmryOutput::write)",
     "harness/smry.cpp + differ; the unformatted codec model of C07",
     "modelled, not verified: the ESMRY container layout, SMSPEC bookkeeping (KEYWORDS/WGNAMES/NUMS/UNITS/RESTART), strtof — these are decided by the property-mode read-back on the real ESmry/ExtESmry",
 ]
